@@ -27,8 +27,11 @@ func c02(r *core.Run) {
 		"then writes the buffered status (or 200) and the buffered body; the deadline arm answers 499 iff context.Canceled else 503 and marks the writer timed out; " +
 		"panic hand-over (deferred recover -> buffered channel -> re-panic) in the REST and RPC timeout runners, RecoverHandler's 500, presence/order/configuration of the guards in engine.bindRoute; " +
 		"MaxConns borrow/return pairing incl. the panic path and its shared latch of capacity n; MaxBytes' 413 guard; the RPC timeout interceptor's status mapping, discarded result and lock discipline on the captured result variables; " +
-		"the crash interceptor's codes.Internal conversion and its position before user interceptors; pass-through of WithCodeResponseWriter."
-	r.NotDecided = "which of handler completion and deadline wins a race (schedules), \"exactly one complete response\" as observed on the wire, the concurrency bound as a runtime quantity, net/http and grpc internals, a user-supplied chain (WithChain) or a global httpx error handler replacing the timeout body."
+		"the crash interceptor's codes.Internal conversion and its position before user interceptors; pass-through of WithCodeResponseWriter; " +
+		"round 9: every panic guard (RecoverHandler, both timeout runners, the crash interceptor) recognises a panic by a completion flag that is false while the protected call runs, not by the value of recover(); " +
+		"an informational 1xx WriteHeader is not committed as the buffered status (evaluated on sample codes); the MaxConns latch is one object per server (created once per MaxConns(n), built where the engine is created, taken by every route from that engine field); " +
+		"http.Server.WriteTimeout is at least the default handler deadline (recorded known finding: 0.9 x Timeout)."
+	r.NotDecided = "which of handler completion and deadline wins a race (schedules), \"exactly one complete response\" as observed on the wire, the concurrency bound as a runtime quantity, net/http and grpc internals, a user-supplied chain (WithChain) or a global httpx error handler replacing the timeout body; a handler goroutine that outlives its timed-out request while its MaxConns slot is already returned; a write deadline shorter than a route timeout raised with WithTimeout; panic detection assumes the module's go directive < 1.21 (recover() == nil for panic(nil)); a handler ending its goroutine with runtime.Goexit is taken for a panic."
 	r.Trusted = append(r.Trusted,
 		"semantics of net/http (headers frozen at WriteHeader/Write), context, sync.Mutex, channel close/receive ordering, grpc interceptor chaining in list order",
 		"numeric values of grpc codes (Canceled=1, DeadlineExceeded=4, Internal=13) and of the HTTP statuses 200/413/499/500/503")
@@ -1317,9 +1320,12 @@ func c02RestGuards(r *core.Run) {
 			for _, d := range recs {
 				df := c02DeferredFn(d.(*ssa.Defer))
 				r.Fn(core.FuncName(df))
-				_, arm := core.EdgesOf(df, recoveredNil)
+				// the panic arm: `!finished` (completion flag) and/or `recover() != nil`; that the test cannot
+				// miss a panic is the matter of D5/K10/recover-handler-panic-detection-value-independent
+				pt := c02PanicTestOf(d.(*ssa.Defer))
+				arm := pt.arm()
 				if len(arm) == 0 {
-					o.Fail(p.Pos(df.Pos()), "recover() result is never tested")
+					o.Fail(p.Pos(df.Pos()), "whether next.ServeHTTP panicked is never tested")
 					continue
 				}
 				// the request's writer inside the deferred function: captured, or handed over as an argument
@@ -1339,9 +1345,39 @@ func c02RestGuards(r *core.Run) {
 				if x, ok := core.Reach(core.Q{From: c02Heads(arm), Target: core.IsExit, Blocked: answers(w, 500)}); ok {
 					o.Fail(p.InstrPos(x), "a recovered panic can leave %s without WriteHeader(500) on the request's writer", core.FuncName(df))
 				}
-				if x := core.Requires(df, isInvokeOn(w, "WriteHeader"), core.Not(recoveredNil)); x != nil {
+				if x := pt.missed(answers(w, 500)); x != nil {
+					o.Fail(p.InstrPos(x), "%s can end with the completion flag unset and no WriteHeader(500): a panic whose value recover() reports as nil is answered with an implicit 200", core.FuncName(df))
+				}
+				if x := core.Requires(df, isInvokeOn(w, "WriteHeader"), pt.panicked); x != nil {
 					o.Fail(p.InstrPos(x), "a status is written although nothing was recovered")
 				}
+			}
+		}
+	})
+	r.Check("D5/K10/recover-handler-panic-detection-value-independent", "RecoverHandler's deferred function decides whether next.ServeHTTP panicked by a completion flag - a bool local that is false while next runs and set only after it returned - and not by the value recover() returns (under this module's go directive recover() is nil for panic(nil), e.g. panic(err) with a nil err: the panic would be stopped and the client get an implicit 200 instead of 500); recover() is called on every path of the panic arm", func(o *core.O) {
+		ctor := p.Func(c02Hdl, "", "RecoverHandler")
+		if !o.Need(ctor != nil, "handler.RecoverHandler") {
+			return
+		}
+		fs := perRequest(ctor)
+		if !o.Need(len(fs) > 0, "the function of RecoverHandler calling next.ServeHTTP") {
+			return
+		}
+		for _, f := range fs {
+			r.Fn(core.FuncName(f))
+			n := 0
+			for _, in := range core.Instrs(f, func(in ssa.Instruction) bool { _, ok := in.(*ssa.Defer); return ok }) {
+				df := c02DeferredFn(in.(*ssa.Defer))
+				if df == nil || df.Blocks == nil || len(recoverCalls(df)) == 0 {
+					continue
+				}
+				n++
+				r.Fn(core.FuncName(df))
+				c02CheckCompletionFlag(o, p, c02PanicTestOf(in.(*ssa.Defer)), core.Instrs(f, isNext), "next.ServeHTTP")
+			}
+			o.Site(n, core.FuncName(f))
+			if n == 0 {
+				o.Fail(p.Pos(f.Pos()), "no deferred recover()")
 			}
 		}
 	})
@@ -1353,7 +1389,7 @@ func c02RestGuards(r *core.Run) {
 		}
 		idx := map[string]int{}
 		for i, e := range elems {
-			n := staticCalleeName(e)
+			n := c02ChainElemName(p, e) // a middleware kept in an engine field is named by the constructor it is built with
 			if _, dup := idx[n]; dup && n != "" {
 				o.Fail("api/engine.go", "%s appears twice in the default chain", n)
 			}
@@ -1430,6 +1466,19 @@ func c02RestGuards(r *core.Run) {
 		for _, e := range elems {
 			c, ok := core.Strip(e).(*ssa.Call)
 			if !ok {
+				// the server-wide MaxConns middleware is built once, by the function that creates the engine,
+				// and kept in an engine field (D6/K5/maxconns-one-latch-per-server): its argument is the
+				// MaxConns of the Config that function stores into engine.config
+				if c02ChainElemName(p, e) == "api/handler.MaxConns" {
+					for _, st := range c02FieldStores(p, "api", c02EngineFieldOf(e)) {
+						n++
+						mc := core.Forward(st.Val).(*ssa.Call)
+						r.Fn(core.FuncName(st.Parent()))
+						if !c02IsEngineConfigField(st, mc.Call.Args[0], "MaxConns") {
+							o.Fail(p.InstrPos(mc), "MaxConns is configured with %s, not config.MaxConns", core.Describe(mc.Call.Args[0]))
+						}
+					}
+				}
 				continue
 			}
 			switch staticCalleeName(e) {
@@ -1749,6 +1798,31 @@ func c02RestGuards(r *core.Run) {
 									okStore = true
 								}
 							}
+							// or the field is filled from the variable that holds the latch (created once, outside
+							// the function that wraps one handler, and handed to every handler value)
+							fst := c02FieldStores(p, c02Hdl, strings.TrimPrefix(key, "field:"))
+							viaVar := len(fst) > 0
+							for _, st := range fst {
+								home, isAl := c02Var(st.Val).(*ssa.Alloc)
+								holds := false
+								if isAl {
+									for _, ref := range *home.Referrers() {
+										if hs, isSt := ref.(*ssa.Store); isSt && hs.Addr == ssa.Value(home) {
+											if hs.Val != in.(ssa.Value) {
+												holds = false
+												break
+											}
+											holds = true
+										}
+									}
+								}
+								if !holds {
+									viaVar = false
+								}
+							}
+							if viaVar {
+								okStore = true
+							}
 						}
 						if !okStore {
 							o.Fail(p.InstrPos(t), "TryBorrow is not called on the latch created by NewLimit(n)")
@@ -1760,6 +1834,115 @@ func c02RestGuards(r *core.Run) {
 		o.Site(n, core.FuncName(mcCtor))
 		if n == 0 {
 			o.Fail(p.Pos(mcCtor.Pos()), "MaxConns creates no syncx.Limit")
+		}
+	})
+
+	r.Check("D6/K5/maxconns-one-latch-per-server", "Config.MaxConns bounds the server, so every route's chain borrows from one and the same latch: (a) in handler.MaxConns the latch is created once per MaxConns(n) call - not in (or on behalf of) the function that wraps one next handler, which runs once per route; (b) the engine calls handler.MaxConns only where it creates the engine object, keeps the middleware in a field of that object that is written nowhere else, and the per-route chain takes the element from that field of its own engine (a latch per route lets R routes run R*MaxConns handlers at once and the excess request gets no 503)", func(o *core.O) {
+		if !mcNeed(o) {
+			return
+		}
+		isHandlerT := func(t types.Type) bool { return t.String() == "net/http.Handler" }
+		// perWrap: f runs once per wrapped handler: it, or a function it is nested in, receives the next handler
+		var perWrap func(f *ssa.Function, depth int) *ssa.Function
+		perWrap = func(f *ssa.Function, depth int) *ssa.Function {
+			top := f
+			for g, i := f, 0; g != nil && i < 8; i++ {
+				for _, pa := range g.Params {
+					if isHandlerT(pa.Type()) {
+						return g
+					}
+				}
+				for _, fv := range g.FreeVars {
+					if isHandlerT(fv.Type()) {
+						return g
+					}
+					if pt, ok := fv.Type().(*types.Pointer); ok && isHandlerT(pt.Elem()) {
+						return g
+					}
+				}
+				top = g
+				up := g.Parent()
+				if m := c02MakerOf(g); m != nil && up != nil {
+					up = m.Parent()
+				}
+				g = up
+			}
+			// a helper: where it is called from decides
+			if top != mcCtor && top.Parent() == nil && depth < 3 && (top.Object() == nil || !top.Object().Exported()) {
+				for _, g := range p.PkgFuncs(c02Hdl) {
+					for _, in := range core.Instrs(g, func(in ssa.Instruction) bool {
+						c := core.AsCall(in)
+						return c != nil && c.Common().StaticCallee() == top
+					}) {
+						_ = in
+						if w := perWrap(g, depth+1); w != nil {
+							return w
+						}
+					}
+				}
+			}
+			return nil
+		}
+		isNew := core.CallTo("lib/syncx.NewLimit")
+		n := 0
+		for _, f := range p.PkgFuncs(c02Hdl) {
+			for _, in := range core.Instrs(f, isNew) {
+				n++
+				r.Fn(core.FuncName(f))
+				if w := perWrap(f, 0); w != nil {
+					o.Fail(p.InstrPos(in), "the latch is created in %s, once per wrapped handler: every route wrapped by the same MaxConns(n) middleware gets n slots of its own", core.FuncName(w))
+				}
+			}
+		}
+		o.Site(n, core.FuncName(mcCtor))
+		if n == 0 {
+			o.Fail(p.Pos(mcCtor.Pos()), "MaxConns creates no syncx.Limit")
+		}
+		// (b) the engine
+		elems, bind := c02Chain(r, o)
+		if elems == nil {
+			return
+		}
+		var elem ssa.Value
+		for _, e := range elems {
+			if c02ChainElemName(p, e) == "api/handler.MaxConns" {
+				elem = e
+			}
+		}
+		if elem == nil {
+			o.Fail(p.Pos(bind.Pos()), "the default chain has no MaxConns element built by handler.MaxConns")
+			return
+		}
+		o.Site(1, core.FuncName(bind))
+		tf := c02EngineFieldOf(elem)
+		if tf == "" {
+			o.Fail(c02ValPos(p, elem), "%s builds the MaxConns middleware while binding a route: every route gets a latch of its own, so R routes admit R*MaxConns concurrent handlers and the excess request gets no 503", core.FuncName(bind))
+			return
+		}
+		if base := c02EngineFieldBase(elem); base == nil || len(bind.Params) == 0 || c02Var(base) != ssa.Value(bind.Params[0]) {
+			o.Fail(c02ValPos(p, elem), "the MaxConns element is not taken from the engine the route is bound on")
+		}
+		stores := c02FieldStores(p, "api", tf)
+		o.Site(len(stores), tf)
+		for _, st := range stores {
+			r.Fn(core.FuncName(st.Parent()))
+			if al, fresh := st.Addr.(*ssa.FieldAddr).X.(*ssa.Alloc); !fresh || al.Parent() != st.Parent() {
+				o.Fail(p.InstrPos(st), "%s is (re)assigned in %s, outside the creation of the engine: routes bound before and after borrow from different latches", tf, core.FuncName(st.Parent()))
+			}
+		}
+		// no other MaxConns middleware is built in the package
+		for _, f := range p.PkgFuncs("api") {
+			for _, c := range core.Calls(f, core.CallTo("api/handler.MaxConns")) {
+				kept := false
+				for _, st := range stores {
+					if core.Forward(st.Val) == c.(ssa.Value) {
+						kept = true
+					}
+				}
+				if !kept {
+					o.Fail(p.InstrPos(c), "%s builds a second MaxConns middleware (a second latch)", core.FuncName(f))
+				}
+			}
 		}
 	})
 
@@ -2325,9 +2508,10 @@ func c02Rpc(r *core.Run) {
 			recs = append(recs, in)
 			n++
 			r.Fn(core.FuncName(df))
-			_, arm := core.EdgesOf(df, recoveredNil)
+			pt := c02PanicTestOf(d)
+			arm := pt.arm()
 			if len(arm) == 0 {
-				o.Fail(p.Pos(df.Pos()), "%s never tests recover() != nil", core.FuncName(df))
+				o.Fail(p.Pos(df.Pos()), "%s never tests whether the handler panicked", core.FuncName(df))
 				continue
 			}
 			// conversion directly in df, or through the function-typed parameter it is handed
@@ -2354,6 +2538,9 @@ func c02Rpc(r *core.Run) {
 			if w, ok := core.Reach(core.Q{From: c02Heads(arm), Target: core.IsExit, Blocked: done}); ok {
 				o.Fail(p.InstrPos(w), "a recovered panic can leave %s without being converted", core.FuncName(df))
 			}
+			if w := pt.missed(done); w != nil {
+				o.Fail(p.InstrPos(w), "%s can end with the completion flag unset and nothing converted: a panic whose value recover() reports as nil returns (nil, nil)", core.FuncName(df))
+			}
 		}
 		o.Site(n, core.FuncName(uc))
 		if n == 0 {
@@ -2362,6 +2549,29 @@ func c02Rpc(r *core.Run) {
 		}
 		if w := core.Precedes(uc, core.Is(recs...), isUnaryHandlerCall); w != nil {
 			o.Fail(p.InstrPos(w), "the handler can run before the recover is deferred")
+		}
+	})
+	r.Check("D8/K10/crash-interceptor-panic-detection-value-independent", "UnaryCrashInterceptor's deferred function decides whether the handler panicked by a completion flag - a bool local that is false while the handler runs and set only after it returned - and not by the value recover() returns (under this module's go directive recover() is nil for panic(nil), e.g. panic(err) with a nil err: the call would return (nil, nil) instead of codes.Internal); recover() is called on every path of the panic arm", func(o *core.O) {
+		uc := p.Func(c02RpcSI, "", "UnaryCrashInterceptor")
+		if !o.Need(uc != nil, "serverinterceptors.UnaryCrashInterceptor") {
+			return
+		}
+		r.Fn(core.FuncName(uc))
+		hs := core.Instrs(uc, isUnaryHandlerCall)
+		n := 0
+		for _, in := range core.Instrs(uc, func(in ssa.Instruction) bool { _, ok := in.(*ssa.Defer); return ok }) {
+			d := in.(*ssa.Defer)
+			df := c02DeferredFn(d)
+			if df == nil || df.Blocks == nil || len(recoverCalls(df)) == 0 {
+				continue
+			}
+			n++
+			r.Fn(core.FuncName(df))
+			c02CheckCompletionFlag(o, p, c02PanicTestOf(d), hs, "the handler")
+		}
+		o.Site(n, core.FuncName(uc))
+		if n == 0 {
+			o.Fail(p.Pos(uc.Pos()), "UnaryCrashInterceptor has no deferred recover()")
 		}
 	})
 
